@@ -3,6 +3,7 @@ from props.cuts import extract_lc_comparator
 
 F = "lc"
 PROP = {
+    "manifest": {'text': 'PARTIAL (listing order and merge arithmetic). The real sorting statements of get_sorted_lifecycles_as_vec (source-extracted, see cuts) on 3 arbitrary records in arbitrary input order: each lifecycle listed once, a resumed lifecycle never before its origin, start-time order without resume links; the comparator/key is a strict weak order; Lifecycle::merge: counts add up, merged record invalidated, min/max/start exact. NOT covered: agreement of the published table with delivered messages (needs the detector main loop + evmap: out of reach) - the phantom-lifecycle class is not detected.', 'note': "rustc front end, kani-compiler MIR->goto translation, CBMC 6.11 + cadical, Kani's allocation/slice models; stubs and textual cuts listed in the evidence; resume links point to smaller ids (acyclic); std sort executed as compiled for n = 3.", 'technique': 'bounded model checking of the real code (Kani/CBMC): symbolic records through the extracted sorting code; algebraic order axioms'},
     "inject": [(LC_OWNER, "lc.rs")],
     "cuts": [extract_lc_comparator],
     "functions": ["the sorting statements of lifecycle::get_sorted_lifecycles_as_vec (source-extracted) incl. its comparator/key closure", "slice::sort_by_key, slice::rotate_left (std, as compiled)", "lifecycle::Lifecycle::merge", "Lifecycle::was_merged"],
